@@ -239,7 +239,10 @@ class Entry(Space):
 AUTO_EXTRA = [[], ["-w", "20"], ["-w", "0"], ["-s"], ["-c"], ["--smartquotes"], ["--ellipses"], ["--list-spacing", "loose"], ["--list-spacing", "tight"],
               ["-p"], ["-w", "20", "--list-spacing", "tight"], ["--nobackup"], ["-i"]]
 USAGE = [([], ""), (["-w", "20"], ""), (["-o", "x.md", "a.md", "b.md"], ""), (["-i", "-"], "x"), (["--auto"], ""), (["--list-files"], ""),
-         (["-i", "--nobackup", "-"], "x"), (["--auto", "-"], "x"), (["nonexistent.md"], ""), (["-i", "nonexistent.md", "a.md"], "")]
+         (["-i", "--nobackup", "-"], "x"), (["--auto", "-"], "x"), (["nonexistent.md"], ""), (["-i", "nonexistent.md", "a.md"], ""),
+         # appended later: the offending argument comes after arguments that are fine on their own
+         (["-i", "--nobackup", "a.md", "-"], "x"), (["-i", "a.md", "b.md", "-"], "x"), (["--auto", "a.md", "-"], "x"), (["-i", "-", "a.md"], "x"),
+         (["-o", "x.md", "a.md", "-"], "x")]
 
 
 class AutoAndUsage(Space):
@@ -292,8 +295,105 @@ class AutoAndUsage(Space):
         return Outcome(viol=viol, tags=["usage-error"])
 
 
+BYTEDOCS = {
+    "bom-heading": b"\xef\xbb\xbf# **Head**\n\ntext   here...\n",
+    "bom-frontmatter": b"\xef\xbb\xbf---\ntitle: x\n---\n\nbody   text\n",
+    "crlf": b"# H\r\n\r\nsome   text \"q\"...\r\n\r\n- a\r\n- b\r\n",
+    "crlf-frontmatter": b"---\r\nt: 1\r\n---\r\n\r\n    a\r\n\r\n    b\r\n",
+    "lone-cr": b"one   line\rsecond line\r\rnew para\r",
+    "non-ascii": "# Caf\u00e9 \u2014 \u4e2d\u6587abc\n\nna\u00efve   \"q\"\u2026 it's\n".encode("utf8"),
+    "no-final-newline": b"text   without newline",
+    "already-formatted-crlf": b"# H\r\n\r\ntext\r\n",
+    "empty": b"",
+    "blank": b"  \n\n",
+    "nul-and-controls": b"a\x00b \x0c c\x1fd\n",
+}
+BYTE_ENTRIES = ["file-stdout", "file-i", "file-i-backup", "file-o", "stdin-stdout", "stdin-o", "auto"]
+BYTE_OPTS = [[], ["-s", "-c", "--smartquotes", "--ellipses", "-w", "20"], ["-p"]]
+
+
+def _decode(b):
+    """What a text-mode read of the byte stream yields: UTF-8, universal newlines."""
+    return b.decode("utf8").replace("\r\n", "\n").replace("\r", "\n")
+
+
+class ByteDocs(Space):
+    """The command line on byte streams (real subprocess, real pipes): every entry point must give reformat_text(decoded text) encoded
+    as UTF-8, whatever the stream starts with (BOM) and whichever line terminators it uses."""
+
+    prop = "C15"
+    name = "byte-streams-subprocess"
+
+    def __init__(self):
+        self.floors = {"bytes-differ-from-lf-ascii": 50}
+
+    def cases(self):
+        for dname in BYTEDOCS:
+            for e in BYTE_ENTRIES:
+                for oi in range(len(BYTE_OPTS)):
+                    if e == "auto" and oi:
+                        continue
+                    yield (dname, e, oi)
+
+    def describe(self, case):
+        return {"document_bytes": repr(BYTEDOCS[case[0]]), "entry": case[1], "argv_options": BYTE_OPTS[case[2]]}
+
+    def smaller(self, case):
+        dname, e, oi = case
+        if oi:
+            yield (dname, e, 0)
+
+    def evaluate(self, case):
+        dname, entry, oi = case
+        raw = BYTEDOCS[dname]
+        av = BYTE_OPTS[oi]
+        kw = dict(width=88, plaintext=False, semantic=False, cleanups=False, smartquotes=False, ellipses=False)
+        if oi == 1:
+            kw = dict(width=20, plaintext=False, semantic=True, cleanups=True, smartquotes=True, ellipses=True)
+        elif oi == 2:
+            kw["plaintext"] = True
+        if entry == "auto":
+            kw = dict(width=88, plaintext=False, semantic=True, cleanups=True, smartquotes=True, ellipses=True)
+        exp = reformat_text(_decode(raw), **kw).encode("utf8")
+        viol = []
+        tags = ["bytes-differ-from-lf-ascii"] if (b"\r" in raw or raw[:3] == b"\xef\xbb\xbf" or any(c > 127 for c in raw)) else []
+
+        def bad(what, got):
+            viol.append((f"bytes:{entry}:{what}", {"document": repr(raw), "argv_options": av, "got": repr(got), "expected": repr(exp)}))
+
+        with cli.scenario({"a.md": raw}) as d:
+            A = os.path.join(d, "a.md")
+            rd = lambda p: open(p, "rb").read() if os.path.exists(p) else None
+            if entry == "file-stdout":
+                c, out, err = cli.run_subprocess_bytes(av + ["a.md"], d)
+                if c != 0 or out != exp:
+                    bad("output", out)
+                if rd(A) != raw:
+                    bad("input-touched", rd(A))
+            elif entry in ("file-i", "file-i-backup", "auto"):
+                argv = ["--auto", "a.md"] if entry == "auto" else av + ["-i"] + ([] if entry == "file-i-backup" else ["--nobackup"]) + ["a.md"]
+                c, out, err = cli.run_subprocess_bytes(argv, d)
+                if c != 0 or rd(A) != exp:
+                    bad("output", rd(A))
+                if entry == "file-i-backup" and rd(A + ".orig") != raw:
+                    bad("backup-content", rd(A + ".orig"))
+            elif entry == "file-o":
+                c, out, err = cli.run_subprocess_bytes(av + ["-o", "out.md", "a.md"], d)
+                if c != 0 or rd(os.path.join(d, "out.md")) != exp:
+                    bad("output", rd(os.path.join(d, "out.md")))
+            elif entry == "stdin-stdout":
+                c, out, err = cli.run_subprocess_bytes(av + ["-"], d, stdin=raw)
+                if c != 0 or out != exp:
+                    bad("output", out)
+            elif entry == "stdin-o":
+                c, out, err = cli.run_subprocess_bytes(av + ["-o", "out.md", "-"], d, stdin=raw)
+                if c != 0 or rd(os.path.join(d, "out.md")) != exp:
+                    bad("output", rd(os.path.join(d, "out.md")))
+        return Outcome(viol=viol, tags=tags, obs=hash((exp, entry)))
+
+
 def spaces(tier):
     probs = check_discriminating()
     if probs:
         raise SystemExit(f"HARNESS ERROR: the C15 document does not discriminate option(s) {probs} (vacuous)")
-    return [Entry(tier, "inproc"), Entry(tier, "subprocess"), AutoAndUsage("inproc"), AutoAndUsage("subprocess")]
+    return [Entry(tier, "inproc"), Entry(tier, "subprocess"), AutoAndUsage("inproc"), AutoAndUsage("subprocess"), ByteDocs()]
